@@ -374,7 +374,7 @@ Proof.
     { constructor; [intros [H|[H|[]]]; discriminate|]. constructor; [intros [H|[]]; discriminate|].
       constructor; [intros []|constructor]. }
     split.
-    + right. split; [reflexivity|]. right. split; [split; reflexivity|]. split; [reflexivity|].
+    + right. split; [reflexivity|]. right. left. split; [split; reflexivity|]. split; [reflexivity|].
       intros c [<-|[<-|[<-|[]]]]; eexists; reflexivity.
     + exists elem_core. split; [|split].
       * intros c [<-|[<-|[<-|[]]]]; cbn.
@@ -425,7 +425,7 @@ Proof.
     { intros c [<-|[<-|[]]]; cbn; intros x Hx; cbn in *; intuition. }
     split; [exists true; reflexivity|].
     split; [constructor; [intros [H|[]]; discriminate|constructor; [intros []|constructor]]|]. split.
-    + right. split; [reflexivity|]. right. split; [split; reflexivity|]. split; [reflexivity|].
+    + right. split; [reflexivity|]. right. left. split; [split; reflexivity|]. split; [reflexivity|].
       intros c [<-|[<-|[]]]; eexists; reflexivity.
     + exists pkg_core. split; [|split].
       * intros c [<-|[<-|[]]]; cbn.
